@@ -18,7 +18,7 @@ import (
 )
 
 type c09Step struct {
-	Kind string `json:"kind"` // http | wsframe | wtframe | wsdial | candidate
+	Kind string `json:"kind"` // http | frame | wsdial | candidate | bigpoll
 	Desc string `json:"desc"`
 	// http
 	Method  string            `json:"method,omitempty"`
@@ -154,6 +154,15 @@ func hostileQuery(rng *rand.Rand, sid, otherSid string, rev int) string {
 	return strings.Join(qs, "&")
 }
 
+// hostileAcceptEncoding: header values a parser of "coding;q=weight" lists can trip over.
+func hostileAcceptEncoding(rng *rand.Rand) string {
+	vs := []string{
+		strings.Repeat("gzip,", 500), "gzip;", "br;q", "gzip;q=", ";", ",,,", "gzip;q=abc", "deflate ; q = 0.5 ; x", "zstd;;q=1", "*", "gzip;q=0", "gzip;q=1.0000000000000000000001",
+		"gzip;q=-1", "gzip;=", "=;gzip", "gzip\x00", " ", "gzip ;", "br;q=0.5;q", "identity;q=0, *;q=0", "deflate;q=1e999", strings.Repeat(";", 3000), "gzip;q=0.5,br;", "zstd; q",
+	}
+	return vs[rng.IntN(len(vs))]
+}
+
 func genC09(rng *rand.Rand, allowSpin bool) c09Case {
 	c := c09Case{Rev: 4, Victim: []string{"polling", "polling", "websocket", "webtransport"}[rng.IntN(4)]}
 	if c.Victim != "webtransport" && rng.IntN(3) == 0 {
@@ -175,8 +184,8 @@ func genC09(rng *rand.Rand, allowSpin bool) c09Case {
 			if rng.IntN(6) == 0 {
 				st.Header["Origin"] = []string{"null", "http://a\tb", strings.Repeat("o", 5000), "http://[::1"}[rng.IntN(4)]
 			}
-			if rng.IntN(8) == 0 {
-				st.Header["Accept-Encoding"] = strings.Repeat("gzip,", 500)
+			if rng.IntN(6) == 0 {
+				st.Header["Accept-Encoding"] = hostileAcceptEncoding(rng)
 			}
 			st.Chunked = rng.IntN(4) == 0
 			st.Desc = desc
@@ -193,6 +202,10 @@ func genC09(rng *rand.Rand, allowSpin bool) c09Case {
 			}
 			st.BodyB64 = base64.StdEncoding.EncodeToString(body)
 			st.Desc = desc
+		case x < 9 && rng.IntN(2) == 0:
+			st.Kind = "bigpoll"
+			st.Header = map[string]string{"Accept-Encoding": hostileAcceptEncoding(rng)}
+			st.Desc = "poll for a compressible response with a hostile Accept-Encoding"
 		case x < 9:
 			st.Kind = "candidate"
 			st.Desc = "upgrade candidate with another EIO value, then heartbeats"
@@ -262,6 +275,17 @@ func runC09(c c09Case, rng *rand.Rand, r *rep.Report) (key, msg string, stats ma
 						x.Abort()
 					}
 					stats["hostile_http_requests"]++
+				case "bigpoll":
+					// the decoy session has no reader of its own: a response above the compression
+					// threshold waits for this poll
+					if ds := w.SocketByID(decoy.Sid); ds != nil && ds.ReadyState() == "open" {
+						ds.Send(types.NewStringBufferString(strings.Repeat("compress me ", 150+rng.IntN(300))), nil, nil)
+					}
+					x := w.Start(rig.ReqSpec{Method: "GET", Target: "/engine.io/?EIO=4&transport=polling&sid=" + decoy.Sid, Header: map[string][]string{"Accept-Encoding": {st.Header["Accept-Encoding"]}}})
+					if _, ok := x.WaitFor(3 * time.Second); !ok {
+						x.Abort()
+					}
+					stats["hostile_polls_for_compressible_responses"]++
 				case "frame":
 					switch c.Victim {
 					case "websocket":
